@@ -247,6 +247,12 @@ def sentinel_cases():
             for body in ("Fonctionnalit\u00e9: f\n Sc\u00e9nario: s\n  Soit x\n", "Feature: f\n Scenario: s\n  Given x\n", "Egenskap: f\n"):
                 cases.append({"sub": "text", "label": "header-after-unknown-header", "text": first + "\n" + second + "\n" + body})
                 cases.append({"sub": "text", "label": "header-after-unknown-header", "text": first + "\n# c\n\n" + second + "\n@t\n" + body})
+    for hdr in ("#language: tlh-x", "# language: qq"):
+        cases.append({"sub": "text", "label": "same-unknown-header-twice", "text": hdr + "\n# c\n" + hdr + "\nFeature: f\n"})
+        cases.append({"sub": "text", "label": "same-unknown-header-twice", "text": hdr + "\n" + hdr + "\n" + hdr + "\n"})
+    for tl in ("@a b@c d", "@smoke test @slow test", "@a b @c d @e f", " @ok @a b @fine @c d # e f", "@a b\n@c d", "@a\tb @c\xa0d"):
+        for pre in (["Feature: f"], [], ["Feature: f", " Scenario: s", "  Given x"]):
+            cases.append({"sub": "text", "label": "several-whitespace-tags", "text": "\n".join(pre + [tl, " Scenario: t", "  Given y"]) + "\n"})
     for n in (39, 40, 41, 100):
         for hdr in ("#language: fr", "# language: qq-unknown"):
             cases.append({"sub": "text", "label": "header-below-a-banner", "text": "# banner\n" * (n - 1) + hdr + "\nFonctionnalit\u00e9: f\n Sc\u00e9nario: s\n  Soit x\n"})
